@@ -2,9 +2,11 @@ mod attr;
 mod core;
 mod gen;
 mod ops;
+mod refmodel;
 mod runner;
 mod simple;
 mod codec;
+mod replhist;
 mod treeprops;
 
 use runner::*;
@@ -44,6 +46,13 @@ fn main() {
     r["extra"] = json!({ "exhaustive_single_field_deltas": n, "exhaustive_limit": limit });
     for f in fails { r["failures"].as_array_mut().unwrap().push(json!({ "kind": if f.clause.ends_with("corr") { "corr" } else { "oracle" }, "clause": f.clause, "detail": f.detail, "known": null, "case": {"requests": []} })); }
     r
+  } else if id == "C05" {
+    let mut r = simple::run_simple("C05", &replhist::gen, &[], &cfg);
+    let mut d = core::Driver::spawn(&cfg.driver);
+    let (n, fails) = if thorough { replhist::exhaustive(3, 2, &mut d) } else { replhist::exhaustive(2, 2, &mut d) };
+    r["extra"] = json!({ "exhaustive_micro_scope_cases": n });
+    for f in fails { r["failures"].as_array_mut().unwrap().push(json!({ "kind": if f.clause.ends_with("corr") { "corr" } else { "oracle" }, "clause": f.clause, "detail": f.detail, "known": null, "case": {"requests": []} })); }
+    r
   } else { eprintln!("unknown property {id}"); std::process::exit(2); };
   let mut result = result;
   result["wall_s"] = json!(t0.elapsed().as_secs_f64());
@@ -73,6 +82,8 @@ fn tree_json(p: &TreeProp, r: &RunResult) -> serde_json::Value {
     "distribution": r.dist,
     "impl_panics": r.impl_panics,
     "oracle_failures": r.oracle_failures,
+    "unknown_oracle_failures": r.unknown_oracle_failures,
+    "known_counts": r.known_counts,
     "corr_failures": r.corr_failures,
     "model_oracle_failures": r.model_oracle_failures,
     "driver_lines": r.driver_lines,
